@@ -70,6 +70,7 @@ SCENES = {
     6: [("NewDoc", 8, 8), ("NewDoc", 8, 8), _px(0, 1, 1, 2, 2), ("Append", 0, 2), _px(0, 2, 2, 3, 3), ("Append", 0, 3), ("SetClip", 3, True),
         ("NewGroup", 1), _px(1, 4, 4, 2, 2), ("Append", 4, 5)],
     7: [],
+    8: [("NewDoc", 8, 8), _px(0, 1, 1, 2, 2), _px(0, 3, 3, 3, 2)],
 }
 
 
@@ -132,12 +133,17 @@ def case_lit(c):
 class World:
     """Real psd_tools objects addressed by id (allocation order)."""
 
-    def __init__(self, mode="RGB", depth=8):
+    def __init__(self, mode="RGB", depth=8, modes=None, docs="new"):
+        """modes: colour mode of the n-th document created (cycled), default: `mode` for all;
+        docs: "new" = PSDImage.new, "frompil-rgba" = flat documents made by PSDImage.frompil(RGBA image)"""
         quiet()
         self.objs = []
         self.idx = {}
         self.mode = mode
         self.depth = depth
+        self.modes = list(modes) if modes else None
+        self.docs = docs
+        self.ndocs = 0
         self.dead = False  # after a RecursionError from a list cycle nothing more is applied
         self.export_errors = []  # exceptions raised by exporting reads (their answers are not compared)
 
@@ -201,10 +207,15 @@ class World:
         k = o[0]
         O = self.objs
         if k == "NewDoc":
-            return [self.reg(PSDImage.new(self.mode, (o[1], o[2]), depth=self.depth))]
+            m = self.modes[self.ndocs % len(self.modes)] if self.modes else self.mode
+            self.ndocs += 1
+            if self.docs == "frompil-rgba":
+                return [self.reg(PSDImage.frompil(Image.new("RGBA", (o[1], o[2]), (200, 30, 30, 128))))]
+            return [self.reg(PSDImage.new(m, (o[1], o[2]), depth=self.depth))]
         if k == "NewPixel":
             _, psd, l, t, w, h = o
-            im = Image.new(self.mode, (w, h), 0)
+            pm = O[psd].pil_mode if psd is not None else self.mode
+            im = Image.new(pm[:-1] if pm in ("RGBA", "LA") else pm, (w, h), (40 + 30 * len(O)) % 200)
             lay = PixelLayer.frompil(im, None if psd is None else O[psd], "L%d" % len(O), t, l)
             return [self.reg(lay)]
         if k == "NewGroup":
@@ -393,12 +404,12 @@ def step_digest(out, state):
     return h63_list(h63_list(0, out), state)
 
 
-def run_case(case, hooks=(), mode="RGB", depth=8, nc=False):
+def run_case(case, hooks=(), mode="RGB", depth=8, nc=False, modes=None, docs="new"):
     """run scene + history on a fresh World; returns (world, [step digests], [outs]).
     hooks: callables (world, index_in_history or -1 for scene steps, op, out, before) called after each step;
     `before` is whatever hook.pre(world, op) returned (or None)."""
     k, ops = case
-    w = World(mode, depth)
+    w = World(mode, depth, modes=modes, docs=docs)
     ds, outs = [], []
     scene = SCENES[k]
     for n, o in enumerate(list(scene) + list(ops)):
